@@ -115,6 +115,126 @@ def splice_sync(caller, bi, callee):
     for name, place in callee.get('vars', []):
         if place and isinstance(place[0], int) and place[0] > argc:
             caller['vars'].append([name, _place(place, lm)])
+    _thread_errors(caller, nb, off, cont)
+
+
+def _thread_errors(caller, nb, off, cont):
+    """Jump threading for a spliced helper whose result the caller hands to `?`.  All returns of the helper join at the
+    caller's continuation and only the caller's `?` separates Ok from Err again, so on the CFG an error produced in
+    the helper seems able to reach the caller's success branch.  Where the continuation is recognisably
+    `[match Poll::Ready] -> Try::branch(result) -> switch`, the error exits of the helper (an `Err(..)` aggregate or a
+    `?` residual written to the helper's return place) get their own copy of the tail (drops, the return block, the
+    Try::branch call) that ends in the Break arm of that switch.  Anything unrecognised is left as it was."""
+    blocks = caller['blocks']
+    if cont is None:
+        return
+    # ---- recognise the continuation chain up to the switch that follows Try::branch
+    chain, x = [], cont
+    for _ in range(8):
+        bl = blocks[x]
+        t = bl.get('term') or {}
+        k = t.get('t')
+        if k == 'call' and (t.get('fn') or '') == 'std::ops::Try::branch':
+            chain.append((x, None))
+            break
+        if k in ('goto', 'drop') and isinstance(t.get('to'), int):
+            chain.append((x, t['to']))
+            x = t['to']
+            continue
+        if k == 'switch' and bl['s'] and bl['s'][-1].get('rv', {}).get('r') == 'discr':
+            ready = [tb for v, tb in t.get('arms', []) if v == 0]     # Poll::Ready = 0
+            if len(ready) != 1:
+                return
+            chain.append((x, ready[0]))
+            x = ready[0]
+            continue
+        return
+    else:
+        return
+    tb_bi = chain[-1][0]
+    nxt = blocks[tb_bi]['term'].get('to')
+    if not isinstance(nxt, int):
+        return
+    tn = blocks[nxt].get('term') or {}
+    if tn.get('t') != 'switch':
+        return
+    brk = [tb for v, tb in tn.get('arms', []) if v == 1]            # ControlFlow::Break = 1
+    if len(brk) != 1:
+        return
+    # ---- error seeds of the spliced region
+    end = len(blocks)
+    seeds = []
+    for i in range(nb, end):
+        bl = blocks[i]
+        if bl.get('cleanup'):
+            continue
+        t = bl.get('term') or {}
+        err = any(s_.get('lhs') == [off] and s_.get('rv', {}).get('r') == 'agg' and s_['rv'].get('variant') == 'Err' and 'Result' in (s_['rv'].get('adt') or '') for s_ in bl['s'])
+        err = err or (t.get('t') == 'call' and (t.get('fn') or '') == 'std::ops::FromResidual::from_residual' and t.get('dest') == [off])
+        if err:
+            seeds.append(i)
+    if not seeds:
+        return
+    # ---- the tail of every seed: gotos / drops up to the block that jumps to the continuation
+    copies = {}
+    new_blocks = []
+
+    def copy_tail(i, depth=0):
+        if i in copies:
+            return copies[i]
+        if depth > 12 or not (nb <= i < end):
+            return None
+        bl = blocks[i]
+        t = bl.get('term') or {}
+        if any(s_.get('lhs') == [off] for s_ in bl['s']) or bl.get('cleanup'):
+            return None
+        idx = end + len(new_blocks)
+        nblk = {'s': [dict(s_) for s_ in bl['s']], 'inl': bl.get('inl'), 'inl_cont': bl.get('inl_cont'), 'inl_err': True}
+        new_blocks.append(nblk)
+        copies[i] = idx
+        if t.get('t') in ('goto', 'drop') and t.get('to') == cont:
+            nblk['term'] = dict(t, to=None)      # patched below: jumps into the threaded chain
+            nblk['_ret'] = True
+            return idx
+        if t.get('t') in ('goto', 'drop') and isinstance(t.get('to'), int):
+            sub = copy_tail(t['to'], depth + 1)
+            if sub is None:
+                return None
+            nblk['term'] = dict(t, to=sub)
+            return idx
+        return None
+    plan = {}
+    for sd in seeds:
+        t = blocks[sd]['term']
+        tgt = t.get('to')
+        if not isinstance(tgt, int):
+            return
+        c = copy_tail(tgt)
+        if c is None:
+            return
+        plan[sd] = c
+    # ---- the threaded chain: copies of the continuation blocks with the known arms taken, ending in the Break arm
+    base = end + len(new_blocks)
+    for k_, (bi, taken) in enumerate(chain):
+        bl = blocks[bi]
+        t = dict(bl['term'])
+        nblk = {'s': [dict(s_) for s_ in bl['s']], 'inl_err': True}
+        if t.get('t') == 'switch':
+            nblk['term'] = {'t': 'goto', 'to': base + k_ + 1, 'ln': t.get('ln')}
+        elif t.get('t') == 'call':
+            t['to'] = base + len(chain)
+            nblk['term'] = t
+        else:
+            t['to'] = base + k_ + 1
+            nblk['term'] = t
+        new_blocks.append(nblk)
+    new_blocks.append({'s': [dict(s_) for s_ in blocks[nxt]['s']], 'term': {'t': 'goto', 'to': brk[0], 'ln': tn.get('ln')}, 'inl_err': True})
+    for nblk in new_blocks:
+        if nblk.pop('_ret', False):
+            nblk['term']['to'] = base
+    blocks.extend(new_blocks)
+    for sd, c in plan.items():
+        blocks[sd]['term'] = dict(blocks[sd]['term'], to=c)
 
 
 def _env_rewrite_place(p, off, envmap):
@@ -219,6 +339,7 @@ def splice_async(caller, call_bi, poll_bi, shell, co):
     for name, pl in co.get('vars', []):
         if pl and isinstance(pl[0], int) and pl[0] > co['argc']:
             caller['vars'].append([name, place(pl)])
+    _thread_errors(caller, nb, off, cont)
 
 
 def _local_flow(body, start_local):
